@@ -236,6 +236,20 @@ class Dataset(AutoSerialize):
         return "\n".join(description)
 
     # --- Methods ---
+    def _normalize_axes(self, axes) -> tuple[int, ...]:
+        """Return `axes` as a tuple of non-negative axis indices (negative indices count from the end)."""
+        if axes is None:
+            return tuple(range(self.ndim))
+        if isinstance(axes, int | float):
+            axes = (axes,)
+        normalized = []
+        for ax in axes:
+            ax = int(ax)
+            if not -self.ndim <= ax < self.ndim:
+                raise ValueError(f"axis {ax} is out of bounds for a dataset with {self.ndim} dimensions")
+            normalized.append(ax % self.ndim)
+        return tuple(normalized)
+
     def copy(self, copy_custom_attributes: bool = True) -> Self:
         """
         Copies Dataset.
@@ -473,10 +487,10 @@ class Dataset(AutoSerialize):
                 raise ValueError("crop_widths must match number of dimensions when axes is None.")
             axes = tuple(range(self.ndim))
         elif isinstance(axes, int | float):
-            axes = (int(axes),)
+            axes = self._normalize_axes(axes)
             crop_widths = (crop_widths[0],)  # Take first crop_width for single axis
         else:
-            axes = tuple(int(a) for a in axes)
+            axes = self._normalize_axes(axes)
 
         if len(crop_widths) != len(axes):
             raise ValueError("Length of crop_widths must match length of axes.")
@@ -552,12 +566,7 @@ class Dataset(AutoSerialize):
         if reducer_norm not in ("sum", "mean"):
             raise ValueError("reducer must be 'sum' or 'mean'")
 
-        if axes is None:
-            axes = tuple(range(self.ndim))
-        elif isinstance(axes, int | float):
-            axes = (int(axes),)
-        else:
-            axes = tuple(int(ax) for ax in axes)
+        axes = self._normalize_axes(axes)
 
         if isinstance(bin_factors, numbers.Integral):
             bin_factors = (int(bin_factors),) * len(axes)
@@ -667,12 +676,7 @@ class Dataset(AutoSerialize):
         Dataset or None
             A new resampled dataset if `modify_in_place` is False, otherwise None.
         """
-        if axes is None:
-            axes = tuple(range(self.ndim))
-        elif isinstance(axes, int | float):
-            axes = (int(axes),)
-        else:
-            axes = tuple(int(a0) for a0 in axes)
+        axes = self._normalize_axes(axes)
 
         if (out_shape is None) == (factors is None):
             raise ValueError("Specify exactly one of out_shape or factors.")
